@@ -99,8 +99,8 @@ func (a *Act) execInstr(st *State, in ssa.Instruction, b *ssa.BasicBlock, incomi
 		sz := a.val(st, x.Size)
 		k, hs := "G:chancap", "(Array Int Int)"
 		vc.setHeap(st, k, hs, store(vc.getHeap(st, k, hs), addr, sz.S))
-		// a new channel is open
-		vc.setHeap(st, "G:chanclosed", "(Array Int Bool)", store(vc.getHeap(st, "G:chanclosed", "(Array Int Bool)"), addr, "false"))
+		// a new channel is open (a fact about the fresh address, not a write: nothing can have closed a channel that did not exist)
+		vc.assume(st.guard, not(sel(vc.getHeap(st, "G:chanclosed", "(Array Int Bool)"), addr)))
 		a.regs[x] = Val{S: addr, Sort: sInt, T: x.Type()}
 	case *ssa.MakeClosure:
 		fn := x.Fn.(*ssa.Function)
